@@ -277,7 +277,21 @@ def r4_5(cx):
              fail_detail='the placeholder is removed from the pending set before the length of the backfill is validated: a panicking backfill exposes the unfilled bytes')
     cx.check(bf.pos_dominates(rm[0].pos, c.pos), 'removed-first', bf, c.loc(), 'the entry is removed from backrefs before the bytes are written', fail_detail='raw copy not dominated by backrefs.remove')
     facts = bf.facts_at(c.bb)
-    ident = any(val is True and e.strip().kind == 'call' and e.strip().op.endswith('::eq') and any(x.pos == rm[0].pos for x in e.calls()) for e, val, ed in facts)
+    def whole_entry(e):
+        # the comparison is between the removed entry as a whole and (key, Some(info)): not one component of it (an entry
+        # with the same key from before a clear(), or from another iovec, would pass)
+        c = e.strip()
+        sides = [a.strip() for a in c.args]
+        removed = [a for a in sides if any(x.pos == rm[0].pos for x in a.calls())]
+        other = [a for a in sides if a not in removed]
+        def is_whole(a):
+            while a.kind == 'ref' or (a.kind == 'proj' and a.op == 'deref'):
+                a = a.a.strip()
+            return not (a.kind == 'proj' and a.op == 'field' and a.info.get('i') in (0, 1) and not any(n.kind == 'proj' and n.op == 'downcast' for n in [a.a.strip()]))
+        return len(removed) == 1 and len(other) == 1 and is_whole(removed[0]) and \
+            any(n.kind == 'agg' and n.info.get('variant') == 'Some' for n in other[0].walk())
+    ident = any(val is True and e.strip().kind == 'call' and e.strip().op.endswith('::eq') and any(x.pos == rm[0].pos for x in e.calls()) and whole_entry(e)
+                for e, val, ed in facts)
     cx.check(ident, 'identity-asserted', bf, c.loc(), 'the removed entry equals (logical_index, Some(info))', fail_detail='the removed entry is not compared with the Backref')
     bound = False
     for e, val, ed in facts:
